@@ -18,8 +18,9 @@
                                   LuaError exactly when stderr is not empty (the status is not read);
                   Some("-")       compile into io::stdout();
                   Some(s)         compile into a buffer (`?` returns the errors BEFORE the file is touched),
-                                  File::create (expect: a failure is a panic), ONE `write` (not write_all:
-                                  a short count is success), an error of that write becomes IOError.
+                                  File::create (expect: a failure is a panic; FILE is truncated from here on),
+                                  `write_all` (reviewed again after /repo ddb4597: before, a single `write`
+                                  whose short count was success), its error becomes IOError.
    compile_uses   compile_with_reader_to_writer reads args.args (first element = the file), no_std
                   (std is bundled iff not no_std), dump_tree, require: so the compile outcome is a function of
                   (file, no_std, require) and the sources, which is how the tie computes `w_compile`.
@@ -53,8 +54,8 @@ Definition doc_output_arms : list (string * list string * string) := [
      ["compile-into:io::stdout().by_ref():?"],
      "{ use std::io; compile_with_reader_to_writer(args, reader, io::stdout().by_ref())?; }");
   ("Some(s)",
-     ["compile-into:buf.by_ref():?"; "create:s"; "expect-format:Failed to create file: {}"; "write:&buf"; "map_err:IOError"],
-     "{ use std::fs::File; let mut buf = Vec::new(); compile_with_reader_to_writer(args, reader, buf.by_ref())?; File::create(s) .expect(&format!(""Failed to create file: {}"", s.display())) .write(&buf) .map_err(|e| vec![Error::IOError(Rc::new(e))])?; }")
+     ["compile-into:buf.by_ref():?"; "create:s"; "expect-format:Failed to create file: {}"; "write_all:&buf"; "map_err:IOError"],
+     "{ use std::fs::File; let mut buf = Vec::new(); compile_with_reader_to_writer(args, reader, buf.by_ref())?; File::create(s) .expect(&format!(""Failed to create file: {}"", s.display())) .write_all(&buf) .map_err(|e| vec![Error::IOError(Rc::new(e))])?; }")
 ].
 
 Definition doc_run_file_rest : string := "{ <match> ; Ok(()) }".
